@@ -81,6 +81,10 @@ def parse_type(s: str):
             return ("List", atom())
         if h == "Option":
             return ("Option", atom())
+        if h == "Col":                        # a column vector `a[:, None]` (shape (n, 1)): the list of its entries
+            return ("Col", atom())
+        if h == "Masked2":                    # a 2-d `numpy.ma` masked array: (data, mask)
+            return ("Masked2", atom())
         if h == "Dict":
             k = atom(); v = atom()
             return ("Dict", k, v)
@@ -102,6 +106,11 @@ def parse_type(s: str):
     return r
 
 
+def is_full_slice(x) -> bool:
+    """`:`"""
+    return isinstance(x, ast.Slice) and x.lower is None and x.upper is None and x.step is None
+
+
 def is_node(t) -> bool:
     return isinstance(t, str) and t.startswith("Node@")
 
@@ -121,6 +130,10 @@ def show_type(t) -> str:
         return f"(List {show_type(t[1])})"
     if t[0] == "Option":
         return f"(Option {show_type(t[1])})"
+    if t[0] == "Col":
+        return f"(List {show_type(t[1])})"
+    if t[0] == "Masked2":
+        return f"(Py.Masked2 {show_type(t[1])})"
     if t[0] in ("Dict", "DDict"):
         return f"(Py.Dict {show_type(t[1])} {show_type(t[2])})"
     if t[0] == "Prod":
@@ -177,6 +190,10 @@ class Fn:
     closures: dict = field(default_factory=dict)   # in an outer function: python name of a nested function / "<lambda>" -> lean name of its translation
     self_topology: tuple | None = None             # (ids code, pids code) standing for `(self.id(), self.pid())` in `self.traverse(...)`
     tparams: list = field(default_factory=list)    # type parameters
+    num_tparams: list = field(default_factory=list)  # NUMERIC type parameters: the declared element type of float arrays / float scalars, with
+                                                    # `+ - *`, the literals 0 and 1, decidable `<` / `≤` (run at `Rat` by the driver)
+    seg_from: str | None = None                    # translate only a SEGMENT of the function body: from the statement with this source text ...
+    seg_to: str | None = None                      # ... to the statement whose source text begins with this line (both must occur exactly once)
     callbacks: dict = field(default_factory=dict)  # python name -> (lean binder text, arg count, result type)  state-passing over `v.cbs`
     skip_stmts: list = field(default_factory=list)  # source text of statements that are glue (replaced by `subst`-initialised params)
     tree_cols: dict = field(default_factory=dict)  # source text of a tree-valued expression (`tree`, `self.attach`) -> {"id": var, "pid": var, "type": var}:
@@ -205,6 +222,15 @@ STRUCTS = {
 }
 
 
+NUM_CLASSES = "[Add {t}] [Sub {t}] [Mul {t}] [OfNat {t} 0] [OfNat {t} 1] [LT {t}] [DecidableLT {t}] [LE {t}] [DecidableLE {t}]"
+
+
+def tparam_binders(spec) -> str:
+    """implicit binders of the type parameters: every one inhabited, the numeric ones with arithmetic and a decidable order"""
+    return " ".join([f"{{{t} : Type}} [Inhabited {t}]" for t in spec.tparams]
+                    + [f"{{{t} : Type}} [Inhabited {t}] " + NUM_CLASSES.format(t=t) for t in spec.num_tparams])
+
+
 class FnTr:
     """translator for one function"""
 
@@ -219,11 +245,13 @@ class FnTr:
         self.nloop = 0
         self.hoist = True                  # switched off for recursive functions (their body is a local definition)
         cbb = " ".join(b for b, _, _ in spec.callbacks.values())
-        tpsi = " ".join(f"{{{t} : Type}} [Inhabited {t}]" for t in spec.tparams)
+        self.num = set(spec.num_tparams)
+        self.all_tparams = list(spec.tparams) + list(spec.num_tparams)
+        tpsi = tparam_binders(spec)
         self.binders_nofuel = f"{tpsi} {cbb}".strip()
         self.bargs_nofuel = " ".join(b.split()[0].strip("(") for b, _, _ in spec.callbacks.values())
-        tapp = (" " + " ".join(spec.tparams)) if spec.tparams else ""
-        self.Vt = f"({spec.lean}.V{tapp})" if spec.tparams else f"{spec.lean}.V"
+        tapp = (" " + " ".join(self.all_tparams)) if self.all_tparams else ""
+        self.Vt = f"({spec.lean}.V{tapp})" if self.all_tparams else f"{spec.lean}.V"
 
     # ---- helpers
     def fresh(self, ty, hint="t"):
@@ -275,6 +303,16 @@ class FnTr:
         return [], f"v.{lname(e.id)}", ty
 
     def e_Attribute(self, e, want):
+        if e.attr == "shape":
+            # `.shape` of a 2-d array / 2-d masked array
+            try:
+                s0, c, t = self.tr(e.value)
+            except Untranslatable:
+                t = None
+            if isinstance(t, tuple) and t[0] == "Masked2":
+                return s0, f"(Py.shape2 ({c}).1)", ("Prod", "Int", "Int")
+            if isinstance(t, tuple) and t[0] == "List" and isinstance(t[1], tuple) and t[1][0] == "List":
+                return s0, f"(Py.shape2 {c})", ("Prod", "Int", "Int")
         # --- a column of a node handle: `n.pid` = `tree.pid()[n.idx]` (Node.__getitem__ indexes the owner's column on every access)
         if not (isinstance(e.value, ast.Name) and isinstance(self.vars.get(e.value.id), str) and self.vars.get(e.value.id) in STRUCTS):
             try:
@@ -380,6 +418,18 @@ class FnTr:
             if isinstance(e.op, ast.Div):
                 n = self.bindname()                                   # Python `/` on ints: ZeroDivisionError, else the exact quotient
                 return s1 + s2 + [f"Py.bind (Py.truediv {a} {b}) fun {n} =>"], n, "Frac"
+        # --- a declared numeric element type (float scalars / arrays): `+ - *`, broadcasting of scalars, of a column against a 2-d array
+        aop = {ast.Add: "+", ast.Sub: "-", ast.Mult: "*"}.get(type(e.op))
+        if aop and ta in self.num and tb == ta:
+            return s1 + s2, f"({a} {aop} {b})", ta
+        if aop and ta in self.num and isinstance(tb, tuple) and tb[0] in ("List", "Col") and tb[1] == ta:
+            return s1 + s2, f"(({b}).map (fun x => {a} {aop} x))", tb                       # scalar ∘ array
+        if aop and tb in self.num and isinstance(ta, tuple) and ta[0] in ("List", "Col") and ta[1] == tb:
+            return s1 + s2, f"(({a}).map (fun x => x {aop} {b}))", ta                       # array ∘ scalar
+        if (aop and isinstance(ta, tuple) and ta[0] == "List" and isinstance(ta[1], tuple) and ta[1][0] == "List" and ta[1][1] in self.num
+                and tb == ("Col", ta[1][1])):
+            n = self.bindname()                                                             # (r, k) array ∘ column (n, 1)
+            return s1 + s2 + [f"Py.bind (Py.bcastCol (fun x y => x {aop} y) {a} {b}) fun {n} =>"], n, ta
         if ta == ("List", "Int") and tb == "Int" and isinstance(e.op, (ast.Sub, ast.Add)):
             sign = "-" if isinstance(e.op, ast.Sub) else ""
             return s1 + s2, f"(({a}).map (fun x => x + ({sign}{b})))", ("List", "Int")
@@ -501,6 +551,20 @@ class FnTr:
             if isinstance(t, tuple) and t[0] == "List":
                 return s0, f"(Py.len {c})", "Int"
         s1, a, ta = self.tr(e.value)
+        if isinstance(e.slice, ast.Tuple) and len(e.slice.elts) == 2:
+            x0, x1 = e.slice.elts
+            # `a[:, None]`: the 1-d array as a column vector (shape (n, 1)); broadcasting is decided where it is used
+            if is_full_slice(x0) and isinstance(x1, ast.Constant) and x1.value is None and isinstance(ta, tuple) and ta[0] == "List" \
+                    and not isinstance(ta[1], tuple):
+                return s1, a, ("Col", ta[1])
+            # `m[i, j]` on a 2-d array
+            if isinstance(ta, tuple) and ta[0] == "List" and isinstance(ta[1], tuple) and ta[1][0] == "List" \
+                    and not is_full_slice(x0) and not is_full_slice(x1):
+                s2, i, ti = self.tr(x0); s3, j, tj = self.tr(x1)
+                if ti == "Int" and tj == "Int":
+                    n = self.bindname()
+                    return s1 + s2 + s3 + [f"Py.bind (Py.idx2 {a} {i} {j}) fun {n} =>"], n, ta[1][1]
+            raise Untranslatable(f"{self.spec.lean}: subscript `{ast.unparse(e)}` on {ta}")
         # constant index into a tuple
         if isinstance(ta, tuple) and ta[0] == "Prod" and isinstance(e.slice, ast.Constant) and isinstance(e.slice.value, int):
             parts, t, n = [], ta, 1
@@ -907,6 +971,50 @@ class FnTr:
         # --- numpy idioms
         if f in ("np.array", "np.asarray") and args:
             return self.tr(args[0], want)
+        if f in ("np.full", "np.zeros", "np.ones") and len(args) >= 1:
+            # np.full(shape, fill_value=c) / np.zeros(shape[, dtype=…]) / np.ones(shape[, dtype=…]) for a 1-d or 2-d shape
+            if f == "np.full":
+                fv = kw.get("fill_value", args[1] if len(args) > 1 else None)
+                if fv is None or "dtype" in kw:
+                    raise Untranslatable(f"{self.spec.lean}: `{ast.unparse(e)}`")
+                s2, cval, et = self.tr(fv)
+            else:
+                s2 = []
+                dt = ast.unparse(kw["dtype"]) if "dtype" in kw else (ast.unparse(args[1]) if len(args) > 1 else None)
+                one = f == "np.ones"
+                if dt is None:
+                    # the default dtype is float: the element type is the declared numeric type of the target
+                    w = want
+                    while isinstance(w, tuple) and w[0] == "List":
+                        w = w[1]
+                    if w not in self.num:
+                        raise Untranslatable(f"{self.spec.lean}: `{ast.unparse(e)}` (a float array) needs a declared numeric element type")
+                    cval, et = f"({1 if one else 0} : {w})", w
+                elif dt in ("np.int32", "np.int64", "int", "np.int_"):
+                    cval, et = f"({1 if one else 0} : Int)", "Int"
+                elif dt in ("np.bool_", "bool"):
+                    cval, et = ("true" if one else "false"), "Bool"
+                else:
+                    raise Untranslatable(f"{self.spec.lean}: dtype `{dt}`")
+            n = self.bindname()
+            if isinstance(args[0], ast.Tuple) and len(args[0].elts) == 2:
+                s0, r, tr_ = self.tr(args[0].elts[0]); s1, k, tk = self.tr(args[0].elts[1])
+                if tr_ == "Int" and tk == "Int":
+                    return s0 + s1 + s2 + [f"Py.bind (Py.full2 {r} {k} {cval}) fun {n} =>"], n, ("List", ("List", et))
+            elif not isinstance(args[0], ast.Tuple):
+                s0, r, tr_ = self.tr(args[0])
+                if tr_ == "Int":
+                    return s0 + s2 + [f"Py.bind (Py.full {r} {cval}) fun {n} =>"], n, ("List", et)
+        if f == "ma.array" and len(args) == 1 and set(kw) == {"mask"}:
+            s0, d, td = self.tr(args[0]); s1, m, tm = self.tr(kw["mask"])
+            if isinstance(td, tuple) and td[0] == "List" and isinstance(td[1], tuple) and td[1][0] == "List" and tm == ("List", ("List", "Bool")):
+                n = self.bindname()
+                return s0 + s1 + [f"Py.bind (Py.maArray {d} {m}) fun {n} =>"], n, ("Masked2", td[1][1])
+        if f == "np.unravel_index" and len(args) == 2:
+            s0, k, tk = self.tr(args[0]); s1, sh, tsh = self.tr(args[1])
+            if tk == "Int" and tsh == ("Prod", "Int", "Int"):
+                n = self.bindname()
+                return s0 + s1 + [f"Py.bind (Py.unravelIndex {k} {sh}) fun {n} =>"], n, ("Prod", "Int", "Int")
         if f == "np.count_nonzero" and len(args) == 1:
             s, c, t = self.tr(args[0])
             if t == ("List", "Bool"):
@@ -977,6 +1085,11 @@ class FnTr:
             recv = e.func.value
             if meth in ("copy", "to_numpy", "item") and not args:
                 return self.tr(recv, want)
+            if meth == "argmin" and not args and not kw:
+                s, c, t = self.tr(recv)
+                if isinstance(t, tuple) and t[0] == "Masked2" and t[1] in self.num:
+                    n = self.bindname()
+                    return s + [f"Py.bind (Py.maArgmin {c}) fun {n} =>"], n, "Int"
             if meth == "argmax" and not args:
                 s, c, t = self.tr(recv)
                 if t == ("List", "Bool"):
@@ -1180,6 +1293,31 @@ class FnTr:
             st, c, t = self.tr(s.value)
             lv = self.lvalue(tgt)
             return self.chain(st, ".next " + lv(c))
+        if isinstance(tgt, ast.Subscript) and isinstance(tgt.slice, ast.Tuple) and len(tgt.slice.elts) == 2:
+            # stores into a 2-d array: `m[i, j] = x`, `m[i, :] = scalar | 1-d array`, `m[:, j] = scalar`
+            s0, a, ta = self.tr(tgt.value)
+            if not (isinstance(ta, tuple) and ta[0] == "List" and isinstance(ta[1], tuple) and ta[1][0] == "List") or s0:
+                raise Untranslatable(f"{self.spec.lean}: assignment `{ast.unparse(s)}` on {ta}")
+            et = ta[1][1]
+            x0, x1 = tgt.slice.elts
+            lv = self.lvalue(tgt.value)
+            n = self.bindname()
+            s2, x, tx = self.tr(s.value, et)                  # CPython evaluates the right-hand side first, then the target's sub-expressions
+            if is_full_slice(x1) and not is_full_slice(x0):
+                s1, i, ti = self.tr(x0)
+                if ti == "Int" and tx == et:
+                    return self.chain(s2 + s1 + [f"Py.bind (Py.setRowConst {self.reread(tgt.value)} {i} {x}) fun {n} =>"], ".next " + lv(n))
+                if ti == "Int" and tx == ("List", et):
+                    return self.chain(s2 + s1 + [f"Py.bind (Py.setRow {self.reread(tgt.value)} {i} {x}) fun {n} =>"], ".next " + lv(n))
+            elif is_full_slice(x0) and not is_full_slice(x1):
+                s1, j, tj = self.tr(x1)
+                if tj == "Int" and tx == et:
+                    return self.chain(s2 + s1 + [f"Py.bind (Py.setColConst {self.reread(tgt.value)} {j} {x}) fun {n} =>"], ".next " + lv(n))
+            elif not is_full_slice(x0) and not is_full_slice(x1):
+                s1, i, ti = self.tr(x0); s3, j, tj = self.tr(x1)
+                if ti == "Int" and tj == "Int" and tx == et:
+                    return self.chain(s2 + s1 + s3 + [f"Py.bind (Py.setIdx2 {self.reread(tgt.value)} {i} {j} {x}) fun {n} =>"], ".next " + lv(n))
+            raise Untranslatable(f"{self.spec.lean}: assignment `{ast.unparse(s)}`")
         if isinstance(tgt, ast.Subscript):
             s0, a, ta = self.tr(tgt.value)
             s1, i, ti = self.tr(tgt.slice)
@@ -1425,16 +1563,24 @@ class FnTr:
                 raise Untranslatable(f"{sp.lean}: the default of `{pn}` is `{ast.unparse(pos[pn]) if pn in pos else None}`, the spec says `{dv}`")
         self.hoist = not (sp.fuel and (f"self.{sp.func}(" in ast.unparse(fdef) or any(
             isinstance(n, ast.Call) and ast.unparse(n.func) == sp.func for n in ast.walk(fdef))))
-        body = self.block(fdef.body)
+        stmts = fdef.body
+        if sp.seg_from is not None or sp.seg_to is not None:
+            # a segment of the body: the statements before it compute the parameters, the statements after it consume the `out` variables
+            a = [k for k, st in enumerate(stmts) if ast.unparse(st) == sp.seg_from]
+            b = [k for k, st in enumerate(stmts) if ast.unparse(st).splitlines()[0] == sp.seg_to]
+            if len(a) != 1 or len(b) != 1 or a[0] > b[0]:
+                raise Untranslatable(f"{sp.lean}: segment `{sp.seg_from}` … `{sp.seg_to}` not found exactly once in `{sp.func}`")
+            stmts = stmts[a[0]:b[0] + 1]
+        body = self.block(stmts)
         allvars = dict(self.vars)
         allvars.update(self.extra_vars)
         fields = "\n".join(f"  {lname(k)} : {show_type(t)}" for k, t in allvars.items())
         cb_state = ""
         if sp.callbacks:
             fields += "\n  cbs : σ"
-        tps = " ".join(f"({t} : Type)" for t in sp.tparams)
-        tpsi = " ".join(f"{{{t} : Type}} [Inhabited {t}]" for t in sp.tparams)
-        tapp = (" " + " ".join(sp.tparams)) if sp.tparams else ""
+        tps = " ".join(f"({t} : Type)" for t in self.all_tparams)
+        tpsi = tparam_binders(sp)
+        tapp = (" " + " ".join(self.all_tparams)) if self.all_tparams else ""
         cbb = " ".join(b for b, _, _ in sp.callbacks.values())
         params = " ".join(f"({lname(p)} : {show_type(self.vars[p])})" for p in sp.params)
         if sp.callbacks:
@@ -1455,12 +1601,12 @@ class FnTr:
         rec = sp.fuel and (f"self.{sp.func}" in ast.unparse(fdef) or any(
             isinstance(n, ast.Call) and ast.unparse(n.func) == sp.func for n in ast.walk(fdef)))
         lines = [f"/-- variables of {doc} -/",
-                 f"structure {sp.lean}.V {tps} where".replace("  ", " ").rstrip() if not sp.tparams else f"structure {sp.lean}.V {tps} where",
+                 f"structure {sp.lean}.V {tps} where".replace("  ", " ").rstrip() if not self.all_tparams else f"structure {sp.lean}.V {tps} where",
                  fields]
-        inh = " ".join(f"[Inhabited {t}]" for t in sp.tparams)
-        lines.append(f"instance {sp.lean}.instV {tpsi} : Inhabited ({sp.lean}.V{tapp}) := ⟨{{ " + ", ".join(
+        inhb = " ".join(f"{{{t} : Type}} [Inhabited {t}]" for t in self.all_tparams)
+        lines.append(f"instance {sp.lean}.instV {inhb} : Inhabited ({sp.lean}.V{tapp}) := ⟨{{ " + ", ".join(
             f"{lname(k)} := default" for k in list(allvars) + (["cbs"] if sp.callbacks else [])) + " }⟩")
-        Vt = f"({sp.lean}.V{tapp})" if sp.tparams else f"{sp.lean}.V"
+        Vt = f"({sp.lean}.V{tapp})" if self.all_tparams else f"{sp.lean}.V"
         if rec:
             # recursion: structural on the fuel
             lines.append(f"/-- body of {doc} (one level; `fuel` bounds the recursion depth and the loops) -/")
